@@ -157,7 +157,7 @@ def check_orbital_semantics(ctx):
         return None
     obligation("R3", "restricted with occs_aminusb: occsa = (occs + d)/2, occsb = (occs - d)/2 (so they sum to occs and differ by d)", W("occsa"), f)
 
-    NUM = [[2.0, 2.0, 0.0], [2.0, 1.0, 0.0], [2.0, 1.0, 1.0], [1.0, 1.0, 0.0], [1.8, 0.2, 0.0], [2.0, 0.5, 0.0], [0.0, 0.0, 0.0], [0.9999999, 1.0000001, 0.0], [2.0, 1.0 - 1e-9, 1e-9]]
+    NUM = [[2.0, 2.0, 0.0], [2.0, 1.0, 0.0], [2.0, 1.0, 1.0], [1.0, 1.0, 0.0], [1.8, 0.2, 0.0], [2.0, 0.5, 0.0], [0.0, 0.0, 0.0], [0.9999999, 1.0000001, 0.0], [2.0, 1.0 - 1e-9, 1e-9], [2.0, 1.0 + 1e-11, 1.0 - 1e-11], [2.0 - 1e-13, 1.0, 1e-13], [2.0, 1.0 - 1e-5, 1e-5]]
 
     def f():
         for occs in NUM:
